@@ -297,7 +297,21 @@ def check_inst(ctx, out: Outcome, fam, obj, enc, case, big_fields=(), auto=True)
         except Exception as e:  # noqa
             again = _exc(e)
         if again != blob:
-            out.violations.append(Finding(f"oracle:{fam}_reserialise", case, observed=str(again[:300]), expected=str(blob[:300]), detail="second serialisation is not the identical payload"))
+            perm = None
+            if isinstance(again, type(blob)):
+                try:
+                    from qcelemental.util import deserialize as _des
+
+                    perm = c10.extra_order_only(_des(blob, enc), _des(again, enc))
+                except Exception:  # noqa
+                    perm = None
+            if perm:
+                # the recorded class C10-extra-attribute-order (same values; only the additional attributes of an extra='allow' sub-model permuted)
+                out.count("known-class:reserialise_extra_attribute_order")
+                out.violations.append(Finding(c10.KNOWN_KIND_EXTRA_ORDER, {**case, "permuted": [list(x) for x in perm[:4]]}, observed=str(again[:300]), expected=str(blob[:300]),
+                                              detail="second payload lists the additional attributes of an extra='allow' sub-model in another order"))
+            else:
+                out.violations.append(Finding(f"oracle:{fam}_reserialise", case, observed=str(again[:300]), expected=str(blob[:300]), detail="second serialisation is not the identical payload"))
         del again
     del back
     if auto and enc in ("json", "msgpack-ext"):
